@@ -71,6 +71,17 @@ func bulkKinds() []bulkKind {
 				_, err := c.RevertTransaction(ctx, p, big.NewInt(0), false)
 				return err
 			}},
+		// transactions 1 and 3 brought funds that have moved on since: reverting them overdraws unless forced
+		{"revert-1-forced", "REVERT_TRANSACTION", `{"id":1,"force":true}`,
+			func(ctx context.Context, c *command.Commander, p command.Parameters) error {
+				_, err := c.RevertTransaction(ctx, p, big.NewInt(1), true)
+				return err
+			}},
+		{"revert-3-unforced", "REVERT_TRANSACTION", `{"id":3}`,
+			func(ctx context.Context, c *command.Commander, p command.Parameters) error {
+				_, err := c.RevertTransaction(ctx, p, big.NewInt(3), false)
+				return err
+			}},
 		{"delete-metadata", "DELETE_METADATA", `{"targetType":"ACCOUNT","targetId":"bank","key":"k"}`,
 			func(ctx context.Context, c *command.Commander, p command.Parameters) error {
 				return c.DeleteMetadata(ctx, p, ledger.MetaTargetTypeAccount, "bank", "k")
@@ -87,6 +98,10 @@ func seedStore() *memstore.Store {
 	st := memstore.New()
 	tx := ledger.NewTransaction().WithPostings(ledger.NewPosting("world", "seed", "USD", big.NewInt(5))).WithID(big.NewInt(0))
 	st.Seed(ledger.NewTransactionLog(tx, nil))
+	for i, ps := range []ledger.Posting{ledger.NewPosting("world", "gone", "USD", big.NewInt(5)), ledger.NewPosting("gone", "far", "USD", big.NewInt(5)),
+		ledger.NewPosting("world", "gone2", "USD", big.NewInt(5)), ledger.NewPosting("gone2", "far", "USD", big.NewInt(5))} {
+		st.Seed(ledger.NewTransactionLog(ledger.NewTransaction().WithPostings(ps).WithID(big.NewInt(int64(i+1))), nil))
+	}
 	return st
 }
 
